@@ -8,6 +8,7 @@ import (
 	"fmt"
 	"google.golang.org/protobuf/types/known/timestamppb"
 	"sort"
+	"strings"
 	"time"
 
 	"google.golang.org/protobuf/proto"
@@ -72,6 +73,11 @@ type G struct {
 	// EmptyStatus: some checks are written without a Status (the store then stores them as critical).
 	// Off by default so that the command streams of monitors that do not ask for it stay as they are.
 	EmptyStatus bool
+	// UpperSessionIDs: 15% of the references to a session spell its UUID in upper case.
+	UpperSessionIDs bool
+	// SharedQuerySessions: prepared queries are bound to sessions more often and several to the same one.
+	SharedQuerySessions bool
+	lastQuerySession    string
 	peek        *state.Store
 	R           *core.Rand
 	W           Weights
@@ -330,6 +336,15 @@ func (g *G) kvIndex(s *state.Store, key string, idx uint64) uint64 {
 }
 
 func (g *G) sessionRef() string {
+	id := g.sessionRef0()
+	if g.UpperSessionIDs && g.R.Chance(15) {
+		// session IDs are UUIDs; every session lookup parses them case-insensitively, so a client may spell them in upper case
+		return strings.ToUpper(id)
+	}
+	return id
+}
+
+func (g *G) sessionRef0() string {
 	if g.Focus && g.peek != nil && g.R.Chance(85) {
 		if _, ss, err := g.peek.SessionList(nil, nil); err == nil && len(ss) > 0 {
 			return ss[g.R.Intn(len(ss))].ID
@@ -566,6 +581,9 @@ func (g *G) ACL(s *state.Store, idx uint64) Cmd {
 				t.ExpirationTime = &e
 			}
 			t.CreateTime = time.Unix(1_600_000_000+int64(r.Intn(100)), 0).UTC()
+			if r.Chance(12) {
+				t.CreateTime = time.Time{} // unset optional field
+			}
 			if r.Chance(10) {
 				t.SecretID = uuid(1301) // secret clash
 			}
@@ -783,6 +801,9 @@ func (g *G) Intention() Cmd {
 	ixn := &structs.Intention{ID: core.Pick(r, ixnIDs), SourceNS: "default", SourceName: core.Pick(r, []string{"web", "db", "*"}), DestinationNS: "default", DestinationName: core.Pick(r, []string{"web", "db", "*"}),
 		Action: core.Pick(r, []structs.IntentionAction{structs.IntentionActionAllow, structs.IntentionActionDeny}), SourceType: structs.IntentionSourceConsul,
 		CreatedAt: time.Unix(1_600_000_000, 0).UTC(), UpdatedAt: time.Unix(1_600_000_100, 0).UTC()}
+	if r.Chance(12) {
+		ixn.CreatedAt, ixn.UpdatedAt = time.Time{}, time.Time{} // unset optional fields
+	}
 	//nolint:staticcheck
 	ixn.UpdatePrecedence()
 	//nolint:staticcheck
@@ -911,8 +932,12 @@ func (g *G) Query() Cmd {
 	r := g.R
 	op := core.Pick(r, []structs.PreparedQueryOp{structs.PreparedQueryCreate, structs.PreparedQueryCreate, structs.PreparedQueryUpdate, structs.PreparedQueryDelete})
 	q := &structs.PreparedQuery{ID: core.Pick(r, queryIDs), Name: core.Pick(r, []string{"", "q1", "q2"}), Service: structs.ServiceQuery{Service: g.svcPlain()}}
-	if r.Chance(40) {
+	if r.Chance(40) || (g.SharedQuerySessions && r.Chance(50)) {
 		q.Session = g.sessionRef()
+		if g.SharedQuerySessions && g.lastQuerySession != "" && r.Chance(50) {
+			q.Session = g.lastQuerySession // several queries bound to one session
+		}
+		g.lastQuerySession = q.Session
 	}
 	if r.Chance(15) {
 		q.Template = structs.QueryTemplateOptions{Type: structs.QueryTemplateTypeNamePrefixMatch}
@@ -975,6 +1000,10 @@ func (g *G) Fed() Cmd {
 	}
 	fs := &structs.FederationState{Datacenter: dc, UpdatedAt: time.Unix(1_600_000_000+int64(r.Intn(50)), 0).UTC(),
 		MeshGateways: structs.CheckServiceNodes{{Node: &structs.Node{Node: "gw", Address: "9.9.9.9"}, Service: &structs.NodeService{Kind: structs.ServiceKindMeshGateway, ID: "mgw", Service: "mgw", Port: 443}}}}
+	if r.Chance(25) {
+		// optional fields left unset: the value every replica stores must still come from the command
+		fs.UpdatedAt = time.Time{}
+	}
 	req := structs.FederationStateRequest{Datacenter: "dc1", Op: structs.FederationStateUpsert, State: fs}
 	return mk(structs.FederationStateRequestType, "fedstate:upsert", &req)
 }
